@@ -96,20 +96,20 @@ props = [json.loads(l) for l in open(os.path.join(V, "properties.jsonl"))]
 EXTRA = {
  "C01": "Transfers also use unordered and partially reliable neighbour streams, stream identifiers near 2^15/2^16, SSN/MID cursors pre-set just below their wrap, RACK options, and a trailing Shutdown() by one side.",
  "C02": "Same extra scenario dimensions as C01 (unordered / partially reliable neighbours, sequence presets, trailing Shutdown). A second sub-check with a puppet receiver listing any subset of the extensions (no FORWARD-TSN), generated acknowledgement habits and deaf stretches.",
- "C03": "Also: SACKs with several gap blocks of which a middle one is impossible; sequence fields 2^30..2^32-1 away (biased to half the number space), wrong-kind chunks as a must-ignore-or-abort kind, and a second sub-check delivering packets built from the full codec grammar with byte / length mutations (chunk and TLV lengths off by 1..3) with the right tag and checksum; DATA just beyond the receive window. A third sub-check: a puppet peer that bundles control chunks with DATA as other stacks do, with packets that must be dropped in between and a paused reader; everything it sent must be read intact. COOKIE-ECHO bundled with DATA and retransmitted; stray handshake chunks after establishment.",
+ "C03": "Also: SACKs with several gap blocks of which a middle one is impossible; sequence fields 2^30..2^32-1 away (biased to half the number space), wrong-kind chunks as a must-ignore-or-abort kind, and a second sub-check delivering packets built from the full codec grammar with byte / length mutations (chunk and TLV lengths off by 1..3) with the right tag and checksum; DATA just beyond the receive window. A third sub-check: a puppet peer that bundles control chunks with DATA as other stacks do, with packets that must be dropped in between and a paused reader; everything it sent must be read intact. COOKIE-ECHO bundled with DATA and retransmitted; stray handshake chunks after establishment. Forged HEARTBEAT-ACKs with time stamps in the future.",
  "C04": "Also: a peer that answers INIT and then falls silent (COOKIE-ECHO budget); the state oracle 'no handshake timer left running once established' and idling past the whole T1 retry budget before the association is used again. The ext-matrix sub-check (shared with C17): a puppet peer advertising any subset of the extensions in any order.",
- "C05": "Also: positions given as a fraction of the window the library really uses, receive buffers up to 64 MiB, and the rule that nothing further than 65535 from the cumulative point may be accepted (gap ack blocks are 16-bit); receive buffers of arbitrary size. The puppet also sends several chunks (with gaps / duplicates among them) in one packet. A zero-window sub-check (scenarios of C11's hostile sender): stored chunks must be recorded as received.",
- "C06": "Also: SSN/MID cursors pre-set just below their wrap in a third of the scenarios.",
- "C07": "Also: SSN/MID cursors pre-set just below their wrap in a third of the scenarios.",
+ "C05": "Also: positions given as a fraction of the window the library really uses, receive buffers up to 64 MiB, and the rule that nothing further than 65535 from the cumulative point may be accepted (gap ack blocks are 16-bit); receive buffers of arbitrary size. The puppet also sends several chunks (with gaps / duplicates among them) in one packet. A zero-window sub-check (scenarios of C11's hostile sender): stored chunks must be recorded as received. Receivers with small MTUs and bursts of duplicates in one packet.",
+ "C06": "Also: SSN/MID cursors pre-set just below their wrap in a third of the scenarios. Stalled readers behind small buffers (zero-window probes) and streams that flip their ordering mid-run.",
+ "C07": "Also: SSN/MID cursors pre-set just below their wrap in a third of the scenarios. Stalled readers behind small buffers and streams that flip their ordering mid-run.",
  "C08": "Also: readers that poll with read deadlines; Shutdown contexts that expire (the call must not return early, the shutdown goes on), and partially reliable data written by the peer at the instant of the call. Outages of 3..25 consecutive packets during the shutdown sequence. A foreign-shutdown sub-check: a puppet peer acknowledging data with SHUTDOWN chunks; the endpoint must answer SHUTDOWN-ACK and close.",
- "C09": "Also: transport failures that return io.EOF, and readers that poll with read deadlines (incl. phases in which a deadline is armed but no Read is in progress). No timer of the association may be armed ten minutes after the teardown.",
+ "C09": "Also: transport failures that return io.EOF, and readers that poll with read deadlines (incl. phases in which a deadline is armed but no Read is in progress). No timer of the association may be armed ten minutes after the teardown. Several writers blocked at once over a transport whose Write takes time.",
  "C10": "Also: partially reliable streams (a T3 expiry may find only abandoned chunks) with a puppet that honours FORWARD-TSN; acknowledgement outages of 0.3-4 s (optionally deaf), and a second sub-check with two real endpoints in every start mode (client/server, both clients, out-of-band tokens), small asymmetric buffers, paused readers and callbacks that write in the middle of SACK processing; the third miss report outside fast recovery (also during tail-loss recovery) must start fast recovery.",
- "C11": "Also: a hostile sender working from a sequence base just below the wrap, listing a stream twice in one forward-TSN, with a purge-completeness rule after every non-stale skip; a liveness rule in the reassembly model (beyond the last skip every fully pushed ordered message is delivered exactly once). The receiving application may close a stream while the peer keeps sending on it.",
+ "C11": "Also: a hostile sender working from a sequence base just below the wrap, listing a stream twice in one forward-TSN, with a purge-completeness rule after every non-stale skip; a liveness rule in the reassembly model (beyond the last skip every fully pushed ordered message is delivered exactly once). The receiving application may close a stream while the peer keeps sending on it. Hostile-sender buffers up to 1 MiB.",
  "C12": "Also: error cause codes 0..16 and boundary values, chunk / TLV lengths off by 1..3 in the mutation sub-check.",
  "C13": "Also: handshake fault schedules in the live sub-check (INIT / COOKIE-ECHO retransmitted after the peer's INIT was seen), emission rule judged even when the handshake fails. A puppet peer sends a stray INIT / INIT-ACK with a different zero-checksum parameter to the established endpoint.",
  "C14": "Also: readers that poll with 1 ms deadlines, messages cycling through payload identifiers incl. DCEP, ordering flipped in mid-cycle, pauses between the writes of a cycle. A second sub-check: a puppet peer resets its streams as other stacks do (request bundled with DATA, several streams per request, retransmitted, overtaking data, identifiers re-used). The endpoint closes too and the puppet answers with response and request in one RE-CONFIG chunk.",
  "C15": "Also: streams closed by the writer right after their last write and by the reader while data is outstanding (the latter exposes the recorded known finding). Payload protocol identifiers are generated (incl. the WebRTC 'empty' ones). A shutdown-acks sub-check: a puppet receiver acknowledging with SHUTDOWN chunks.",
- "C16": "Also: partially reliable streams and SSN/MID presets in the end-to-end differential runs.",
+ "C16": "Also: partially reliable streams and SSN/MID presets in the end-to-end differential runs. A reasm-lap sub-check: a whole lap of the 16-bit stream sequence number after a skipped incomplete message.",
  "C17": "Also: wrong-kind chunks with duplicate and out-of-window TSNs, and a puppet sub-check with arbitrary peer extension lists judging the framing and FORWARD-TSN variant of everything the endpoint emits. ext-matrix permutes / repeats the extension list, uses the negotiated forward-TSN variant from the peer and checks the exact partial-reliability mode.",
  "C18": "Also: already-expired write deadlines, payload identifiers incl. DCEP, Write()/Read() with SetDefaultPayloadType, SetMaxMessageSize at run time, short reads on unordered streams. One read deadline spanning several reads. Deadlines also set with SetDeadline. Close() after an expired read deadline / past write deadline / pending message, then a write.",
  "C19": "Also: stop() at the very instant of an expiry in the timer model; a generated Karn's-rule sub-check (per-chunk loss counts, exact RFC 6298 update oracle at every SACK), acknowledgement timing in SHUTDOWN-PENDING, heartbeats to a peer in SHUTDOWN-PENDING. sack-timing receivers run with generated congestion / RACK options.",
